@@ -582,7 +582,12 @@ func VerifyEvidence(doc *document.Document, evidence *document.ChipAuthEvidence)
 	// SmSsc default to 1, which is correct when SelectEF was the first SM command (SSC=2).
 	sscInit := big.NewInt(1)
 	if len(evidence.SmSsc) > 0 {
-		sscInit.Sub(new(big.Int).SetBytes(evidence.SmSsc), big.NewInt(1))
+		sscVal := new(big.Int).SetBytes(evidence.SmSsc)
+		// must be a counter value that can follow a command (>=1) and fits the cipher block
+		if sscVal.Sign() < 1 || len(sscVal.Bytes()) > len(sm.SSC()) {
+			return nil, fmt.Errorf("[VerifyEvidence] invalid SmSsc (%x)", evidence.SmSsc)
+		}
+		sscInit.Sub(sscVal, big.NewInt(1))
 	}
 	ssc := make([]byte, len(sm.SSC()))
 	sscInit.FillBytes(ssc)
